@@ -331,12 +331,19 @@ def _make_top_class():
         def __init__(self):
             super(_Top, self).__init__()
             self.seen = []
+            self.seen_ids = []
+            self.raise_ids = set()
             self.raise_once = False
             for t in self.TAGS:
                 self.entity_callbacks[t] = self._on_entity
 
         def _on_entity(self, entity):
             self.seen.append("%s:%s" % (entity.getTag(), entity.__class__.__name__))
+            eid = entity.getId() if hasattr(entity, "getId") else None
+            self.seen_ids.append(eid)
+            if eid in self.raise_ids:
+                self.raise_ids.discard(eid)
+                raise RuntimeError("app callback")
             if self.raise_once:
                 self.raise_once = False
                 raise RuntimeError("app callback")
@@ -600,6 +607,28 @@ class Rig(object):
         else:
             raise ValueError("unknown recv kind %r" % kind)
         return p.encrypt_frame(p.encode(node))
+
+    def recv_frame(self, kind, app_raises=False):
+        """One framed, encrypted stanza from the peer (not delivered yet).  Returns (bytes, stanza id or None).
+        app_raises: the application callback will raise when this stanza reaches it."""
+        before = self._seq
+        data = self._recv_bytes(kind)
+        sid = None
+        if self._seq != before:
+            sid = "%s-%d" % ({"ack": "ack", "receipt": "rcpt", "iq_ping_from_server": "sping",
+                              "notification_unsupported": "ntf"}.get(kind, "?"), self._seq)
+        if app_raises:
+            self.top.raise_ids.add(sid)
+        return data, sid
+
+    def feed(self, data):
+        """Raw bytes of one network read enter through network.onRecvData on the calling thread."""
+        top0 = len(self.top.seen)
+        try:
+            self.net.onRecvData(data)
+        except Exception as e:
+            return self._result("raise", e.__class__.__name__, top0)
+        return self._result("ok", None, top0)
 
     def op_recv(self, kind):
         """Peer encrypts a stanza; the framed bytes enter through network.onRecvData on the calling thread."""
